@@ -23,6 +23,7 @@ import tempfile
 from harness.common import MachineryError
 
 ABSENT, EMPTY = 256, 257
+STATE_EMPTY, STATE_TRAILING = 258, 259        # State item of length 0 / expected step number + one trailing byte
 _FIELD = {"pk": 3, "salt": 2, "proof": 4, "enc": 5, "method": 0, "sid": 14, "tag": 5}
 _STEP_NO = {"PS_M2": 2, "PS_M4": 4, "PS_M6": 6, "PV_M2": 2, "PV_M2R": 2, "PV_M4": 4}
 
@@ -34,7 +35,9 @@ def concretise(cell, honest_items) -> bytes:
     out = []
     for name in cell["wire"]:
         if name == "state":
-            out.append((T.STATE, bytes([cell["state"]])))
+            sv = cell["state"]
+            out.append((T.STATE, b"" if sv == STATE_EMPTY else bytes([_STEP_NO.get(cell["step"], 2), 0xFF]) if sv == STATE_TRAILING
+                        else bytes([sv])))
         elif name == "error":
             out.append((T.ERROR, b"" if cell["error"] == EMPTY else bytes([cell["error"]])))
         elif name == "retry":
@@ -156,7 +159,7 @@ def _cell_key(c):
 
 
 def _describe(c):
-    st = "absent" if c["state"] == ABSENT else f"0x{c['state']:02x}"
+    st = {ABSENT: "absent", STATE_EMPTY: "zero-length", STATE_TRAILING: "expected+trailing byte"}.get(c["state"]) or f"0x{c['state']:02x}"
     er = "absent" if c["error"] == ABSENT else "empty" if c["error"] == EMPTY else f"0x{c['error']:02x}"
     rd = {"none": "", "last": " +RetryDelay(last)", "first": " +RetryDelay(before Error)"}[c["retry"]]
     return f"step {c['step']} via {c['tr']}: reply State={st} Error={er} fields={c['others']}{rd}"
@@ -181,7 +184,8 @@ def run(ctx):
             return _replay(ctx)
         # ---------------- (A) design level + (B) export
         out = os.path.join(tmp, "cases.ndjson")
-        ctx.tlc("pairing/HapErrors_Cases", "HapErrors_Cases_real.cfg", env={"CASES_OUT": out},
+        # quick: the wrong step numbers 1, 3, 5 are left to the thorough tier (0, 2, 4, 6, 255 and the three non-values stay)
+        ctx.tlc("pairing/HapErrors_Cases", ctx.pick("HapErrors_Cases_quick.cfg", "HapErrors_Cases_real.cfg"), env={"CASES_OUT": out},
                 label="reply handling over all cells + case export with Allowed(step, reply)")
         cells = [json.loads(line) for line in open(out)]
         if len(cells) < 1000:
@@ -239,7 +243,7 @@ def run(ctx):
         if ctx.thorough:
             _validate(ctx, tmp, "trace_rand.ndjson", _random_records(ctx, 3000),
                       "seeded random State/Error byte values validated against Allowed", already_reported=False)
-        ctx.exhaustive = True
+        ctx.exhaustive = bool(ctx.thorough)
     finally:
         shutil.rmtree(tmp, ignore_errors=True)
 
@@ -283,7 +287,7 @@ def _random_records(ctx, n):
         s = rng.choice(steps)
         tr = rng.choice(["gen", "ble"]) if s == "PV_M2R" else rng.choice(["gen", "ip", "coap", "ble"]) if s[0] == "P" \
             else ("ip" if s.startswith("IP") else "ble")
-        st = rng.choice([ABSENT, _STEP_NO.get(s, 2), rng.randrange(256), rng.randrange(256)])
+        st = rng.choice([ABSENT, _STEP_NO.get(s, 2), rng.randrange(256), rng.randrange(256), STATE_EMPTY, STATE_TRAILING])
         er = rng.choice([ABSENT, rng.randrange(256), rng.randrange(256), rng.randrange(256)])
         others = [f for f in order if f in fields.get(s, []) and rng.random() < 0.7]
         retry = rng.choice(["none", "none", "last", "first"]) if er != ABSENT else rng.choice(["none", "none", "last"])
